@@ -56,7 +56,9 @@ def run(ctx):
         if i % 6 == 5:
             p["tiny"] = True
             p.pop("feed", None)
-        t3.append(D.run_nndvi(p, D.nndvi_history(rng, nb, equal_sizes=(i % 4 == 0), some_even=bool(p.get("halves"))), seed=rng.randrange(10 ** 6)))
+        hist = D.nndvi_history(rng, nb, equal_sizes=(i % 4 == 0), some_even=bool(p.get("halves")))
+        p["k_nn"] = D.safe_k(hist, p["k_nn"])
+        t3.append(D.run_nndvi(p, hist, seed=rng.randrange(10 ** 6)))
     for i in range(8 if q else 60):
         # k_nn larger than the number of rows of some batches (and of some references, once such a batch has been adopted)
         k = rng.choice([8, 10])
